@@ -468,6 +468,8 @@ def class_change(ctx, rng, mod):
         ([f"--a=SubA", "--a.tags=[\"t\"]", f"--a={M}.Base"], "Base", {}),
         ([f"--a=SubB", "--a.q=true", "--a=SubA", "--a.extra=1.5"], "SubA", {"extra": 1.5}),
         (["--a=SubA", "--a.p0=8", "--a=SubA"], "SubA", {"p0": 8}),
+        (["--a=Loose", "--a.dict_kwargs.z=1", "--a=SubA"], "SubA", {}),
+        (["--a=Loose", "--a.p0=6", "--a.dict_kwargs.z=1", f"--a={M}.Base"], "Base", {"p0": 6}),
     ]
     argv, cname, must = rng.choice(seqs)
     o = call(p.parse_args, argv)
@@ -486,6 +488,9 @@ def class_change(ctx, rng, mod):
     stale = set(ia) - params
     if stale and "kwargs" not in params and "kw" not in params:
         ctx.violation("class_path", "class-change-keeps-stale-init_args", dict(argv=argv, stale=sorted(stale), result=short(a)))
+        return
+    if a.get("dict_kwargs") and "kwargs" not in params and "kw" not in params:
+        ctx.violation("class_path", "class-change-keeps-dict_kwargs-of-previous-class", dict(argv=argv, result=short(a)))
         return
     for k, v in must.items():
         if ia.get(k) != v:
